@@ -59,6 +59,7 @@ def gen(rng, tier):
                     z = C01.recv(rng, prec=rng.choice([0, 1, 3, 20, 34]), mode=mode)
                     mags = rng.choice(ADD_GROUPS) if op in ("Add", "Sub") else None
                     x, y = cls_values(rng, cx, mags), cls_values(rng, cy, mags)
+                    x.acc, y.acc = rng.choice([-1, 0, 1]), rng.choice([-1, 0, 1])
                     shape = rng.choice(["0 1 2", "0 1 2", "1 1 2", "2 1 2"])
                     yield dict(family="class-table-" + op, vars=[z, x, y], ops=["%s %s" % (op, shape)])
         for cx, cy, cu in itertools.product(range(6), repeat=3):
@@ -81,6 +82,7 @@ def gen(rng, tier):
                 for shape in ("0 1 2", "1 1 2", "2 1 2", "0 2 1", "1 2 1", "2 2 1"):
                     x, y = cls_values(rng, cx), cls_values(rng, cy)
                     x.mode = y.mode = mode
+                    x.acc, y.acc = rng.choice([-1, 0, 1]), rng.choice([-1, 0, 1])
                     z = zero(rng.randint(0, 1), prec=rng.choice([0, 3]), mode=mode)
                     yield dict(family="zero-inf-alias-exhaustive", vars=[z, x, y], ops=["%s %s" % (op, shape)])
     # finite sums whose exact result under/overflows: the resulting zero/infinity carries the sign of the exact result
